@@ -30,6 +30,13 @@ OPTIONS = {
     'default_timezone': dict(default_timezone=C11.TZ5),
     'use_enum_value': dict(use_enum_value=True),
 }
+OPTIONS_X = {
+    'truncate_day': dict(truncate_datetime='day'),
+    'truncate_hour': dict(truncate_datetime='hour'),
+    'tz_m5': dict(default_timezone=datetime.timezone(datetime.timedelta(hours=-5))),
+    'tz_530': dict(default_timezone=datetime.timezone(datetime.timedelta(hours=5, minutes=30))),
+}
+ALLOPT = dict(OPTIONS, **OPTIONS_X)
 NORMALISER_OF = {'ignore_string_case': 'ignore_string_case', 'ignore_string_type_changes': 'ignore_string_type_changes', 'ignore_numeric_type_changes': 'ignore_numeric_type_changes',
                  'significant_digits': 'significant_digits', 'significant_digits_e': 'significant_digits', 'significant_digits_0': 'significant_digits', 'truncate_datetime': 'truncate_datetime',
                  'default_timezone': 'default_timezone', 'use_enum_value': 'use_enum_value'}
@@ -122,11 +129,33 @@ def bool_number_alias(a, b):
     return any(x == y for x in bools for y in nums)
 
 
+def datetime_alias(a, b):
+    """two aware datetimes that are == (one instant) and carry different offsets somewhere in the two values: the shared hashes table of
+    a DeepDiff run is keyed by ==/hash, so the second one reuses the digest of the first, while truncation to the hour or the day is done
+    on each datetime's own clock and gives them different digests when hashed alone (finding F52, same root cause as F18)"""
+    dts = []
+
+    def walk(v):
+        if isinstance(v, datetime.datetime):
+            dts.append(v)
+        elif isinstance(v, dict):
+            for k, x in v.items():
+                walk(k); walk(x)
+        elif isinstance(v, (list, tuple, set, frozenset)):
+            for x in v:
+                walk(x)
+    walk(a); walk(b)
+    aware = [d for d in dts if d.utcoffset() is not None]
+    return any(x == y and x.utcoffset() != y.utcoffset() for x in aware for y in aware)
+
+
 def in_domain(a, b, kw=None, direct=False):
     """direct: the two numbers are compared by _diff itself (root, dictionary value), never through one shared hashes table, so NoNumAlias
     (a restriction about that table) does not apply"""
     kw = kw or {}
     if kw.get('ignore_numeric_type_changes') and bool_number_alias(a, b):
+        return False
+    if not direct and kw.get('truncate_datetime') in ('hour', 'day') and datetime_alias(a, b):
         return False
     return ((direct or HS.no_num_alias(a, b)) and HS.no_spoof(a, b) and not keys_collapse(a, kw) and not keys_collapse(b, kw)
             and not set_members_collapse(a, kw) and not set_members_collapse(b, kw))
@@ -190,12 +219,30 @@ def run(ctx, impl_only=False):
                    (C11.Color.GREEN, Level.LOW)]:
         for w in (lambda v: v, lambda v: {'k': v}, lambda v: [{'k': v}, 0], lambda v: {'k': {'j': v}, 'z': 1}):
             cases.append((w(x), w(y), ('use_enum_value',), 'direct'))
+    # truncation happens on the datetime's own clock, at both sites: aware datetimes whose offset differs from default_timezone, in pairs
+    # that share an hour / a day on one clock and not on another
+    _tzs = [datetime.timezone(datetime.timedelta(hours=-5)), datetime.timezone(datetime.timedelta(hours=5, minutes=30)), datetime.timezone.utc,
+            datetime.timezone(datetime.timedelta(hours=5, minutes=45)), None]
+    _walls = [(2020, 1, 1, 23, 30), (2020, 1, 1, 1, 0), (2020, 1, 2, 0, 20), (2020, 1, 1, 23, 50), (2020, 1, 1, 18, 40), (2020, 1, 1, 18, 10), (2020, 1, 1, 19, 5)]
+    for _ in range(max(20, n // 2)):
+        tza, tzb = ctx.rng.choice(_tzs), ctx.rng.choice(_tzs)
+        if ctx.rng.random() < 0.6:
+            tzb = tza
+        x = datetime.datetime(*ctx.rng.choice(_walls), tzinfo=tza)
+        y = datetime.datetime(*ctx.rng.choice(_walls), tzinfo=tzb)
+        if ctx.rng.random() < 0.3 and tza is not None:
+            y = x.astimezone(ctx.rng.choice(_tzs[:4]))
+        wi = ctx.rng.randrange(5)
+        w = [lambda v: v, lambda v: {'k': v}, lambda v: [v, 'x'], lambda v: {'k': (v, 1)}, lambda v: [{'k': v}, 0]][wi]
+        tr = ctx.rng.choice(['truncate_day', 'truncate_hour', 'truncate_datetime'])
+        dz = ctx.rng.choice([None, 'tz_m5', 'tz_530', 'default_timezone'])
+        cases.append((w(x), w(y), (tr,) if dz is None else (tr, dz)) + (('direct',) if wi < 2 else ()))      # root and dictionary value: compared by _diff_datetime itself
     for case_ in cases:
         a, b, combo = case_[:3]
         direct = len(case_) > 3
         kw = {}
         for nm in combo:
-            kw.update(OPTIONS[nm])
+            kw.update(ALLOPT[nm])
         if not in_domain(a, b, kw, direct):
             ctx.count('out_of_domain'); continue
         for rep in (False, True):
@@ -223,7 +270,11 @@ def run(ctx, impl_only=False):
     def f46():
         heq, empty, _ = both([1, 'x'], [True, 'x'], False, dict(ignore_numeric_type_changes=True))
         return heq == empty
-    for fid, fn in {'F18': f18, 'F29': f29, 'F46': f46}.items():
+    def f52():
+        a_ = datetime.datetime(2020, 1, 1, 18, 10, tzinfo=datetime.timezone.utc)
+        heq, empty, _ = both([a_], [a_.astimezone(datetime.timezone(datetime.timedelta(hours=5, minutes=45)))], False, dict(truncate_datetime='hour'))
+        return heq == empty
+    for fid, fn in {'F18': f18, 'F29': f29, 'F46': f46, 'F52': f52}.items():
         ctx.evaluations += 1
         try:
             ok = fn()
@@ -254,7 +305,7 @@ def replay(ctx, payload):
         a, b = eval(fix(case['a']), env), eval(fix(case['b']), env)
         kw = {}
         for nm in case['options']:
-            kw.update(OPTIONS[nm])
+            kw.update(ALLOPT[nm])
         heq, empty, dd = both(a, b, case['report_repetition'], kw)
         print('  ', case, '-> hash equal: %s, diff empty: %s' % (heq, empty), 'holds' if heq == empty else 'FAILS')
         ok = ok and heq == empty
